@@ -829,6 +829,10 @@ func (e *FnEnc) convertTerm(v string, from, to types.Type, f *frame) (string, st
 			el := from.Underlying().(*types.Slice).Elem().Underlying().(*types.Basic)
 			if el.Kind() == types.Uint8 {
 				extra = fmt.Sprintf("(= (slen %s) (sl-len %s))", n, v)
+				// string(bytes): the first byte is carried over (enough to see a sign or a digit)
+				k8, s8 := e.elemHeapKey(types.Typ[types.Uint8])
+				first := fmt.Sprintf("(select (select %s (sl-ref %s)) (sl-off %s))", e.heapGet(f.curHeap, k8, s8), v, v)
+				extra = and(extra, fmt.Sprintf("(=> (bvsgt (sl-len %s) #x0000000000000000) (= (sbyte %s #x0000000000000000) %s))", v, n, first))
 			} else {
 				extra = fmt.Sprintf("(bvsle (slen %s) (bvmul #x0000000000000004 (sl-len %s)))", n, v)
 			}
